@@ -55,7 +55,7 @@ def items(tier):
                 for cached in cache_states(kinds, git):
                     flagsets = [{}] if not cached and git else [{}, {"again": True}]
                     if git:
-                        flagsets = flagsets + [{"at_least": C2}]
+                        flagsets = flagsets + [{"at_least": C2}, {"at_least": "tag-c2"}, {"at_least": "HEAD"}, {"at_least": "tag-c1"}]
                     for flags in flagsets:
                         for jobs in ((1,) if n < 3 else (1, 2)):
                             pars = [k in ("cmd", "exp") and jobs > 1 for k in kinds]
